@@ -251,6 +251,14 @@ fn collect(state: &State, possible_cycles: &PossibleCycles) {
 
     let _drop_guard = DropGuard { state };
 
+    // A collection can be started by a finalizer, a destructor or a cleaning action that is being run by a plain
+    // Cc::drop, which sets finalizing/dropping but not collecting. Those flags describe the caller, not this
+    // collection: clear them while it runs (they are restored afterwards), so that its tracing phases are
+    // recognized as such and its own finalization/dropping phases are the only ones setting them.
+    #[cfg(feature = "finalization")]
+    let _finalizing_guard = replace_state_field!(finalizing, false, state);
+    let _dropping_guard = replace_state_field!(dropping, false, state);
+
     #[cfg(feature = "finalization")]
     for _ in 0..10 {
         // Limit to 10 executions. A collection usually completes in 2 executions, so passing
